@@ -239,6 +239,11 @@ def require(m):
     for need in ('number_as_string', 'date_as_iso_string', 'short_fixed_text', 'empty_or_none_value'):
         if need not in feats:
             reasons.append('encode-side spelling never exercised: ' + need)
+    mf = set(m['classes'].get('message features', ()))
+    for need in ('bit>64', 'proc:ICC', 'proc:DE43', 'proc:PDS', 'proc:PAN', 'type:datetime', 'type:decimal', 'type:int',
+                 'variable-length:decimal', 'variable-length:int'):
+        if need not in mf:
+            reasons.append('feature never exercised: ' + need)
     bugs = [k for k in c if k.startswith(('reference refused', 'strict reference rejects'))]
     n_bug = sum(c[k] for k in bugs)
     if n_bug > 0.02 * max(1, m['evals']):
